@@ -78,6 +78,20 @@ func (pq *plotterQueue) Pop() (*queuedWorkSpace, float32) {
 	return ws, priority
 }
 
+// TryPopItem pops the next item if there is one. Checking Empty() and calling PopItem()
+// separately is not safe: StopWS/RemoveWS/DeleteWS may empty the queue in between.
+func (pq *plotterQueue) TryPopItem() (*queuedWorkSpace, bool) {
+	pq.Lock()
+	defer pq.Unlock()
+
+	if pq.Prque.Empty() {
+		return nil, false
+	}
+	ws := pq.Prque.PopItem().(*queuedWorkSpace)
+	pq.poppedItem = ws
+	return ws, true
+}
+
 func (pq *plotterQueue) PopItem() *queuedWorkSpace {
 	pq.Lock()
 	defer pq.Unlock()
@@ -209,7 +223,7 @@ func (sk *SpaceKeeper) spacePlotter() {
 	defer verifPlotterEvent(sk, "exit", "")
 
 	for {
-		for !sk.queue.Empty() {
+		for {
 			select {
 			case <-sk.quit:
 				wg.Wait()
@@ -217,7 +231,10 @@ func (sk *SpaceKeeper) spacePlotter() {
 			default:
 			}
 
-			qws := sk.queue.PopItem()
+			qws, ok := sk.queue.TryPopItem()
+			if !ok {
+				break
+			}
 			verifPlotterEvent(sk, "popped", qws.ws.id.String())
 			killMonitorCh := make(chan struct{}, 1)
 			wg.Add(1)
